@@ -351,6 +351,16 @@ class TInterp(MInterp):
                 return self.ev(e["recv"])
         if k == "Closure":
             return ("closure", e)
+        if k == "If" and e.get("else") is not None:
+            c = A.strip(e["cond"])
+            if c.get("k") == "Binary" and c.get("op") in ("==", "!="):
+                try:
+                    a_, b_ = self.ev(c["left"]), self.ev(c["right"])
+                    tv_, fv_ = TInterp(self.env).ev(e["then"]), TInterp(self.env).ev(e["else"])
+                    cond = sp.Eq(a_, b_) if c["op"] == "==" else sp.Ne(a_, b_)
+                    return sp.Piecewise((tv_, cond), (fv_, True))
+                except Stop:
+                    pass
         if k == "Call":
             segs = A.path_segs(e["func"]) or []
             if segs[-1:] == ["from"] and len(e["args"]) == 1:
